@@ -109,6 +109,12 @@ WidthMonotone ==
 PopulatedMatrix(tt) == [y \in 1..Height(tt) |-> PadTo(tt.rows[y], MaxRowWidth(tt), E)]
 TransposeInvolution ==
     MaxRowWidth(t) > 0 => PopulatedMatrix(Transpose(Transpose(t))) = PopulatedMatrix(t)
+(* a square area inside the table transposed twice holds the values it held (rows may have been completed with empties) *)
+TransposeAreaInvolution ==
+    \A x \in 0..(Len(t.cols) - 1) : \A y \in 0..(Height(t) - 1) : \A k \in 0..1 :
+        (x + k < Len(t.cols) /\ y + k < Height(t)) =>
+            LET u == TransposeArea(TransposeArea(t, x, y, x + k, y + k), x, y, x + k, y + k)
+            IN \A xx \in 0..(Len(t.cols) - 1) : \A yy \in 0..(Height(t) - 1) : V(Value(u, xx, yy)) = V(Value(t, xx, yy))
 RStripIdempotent ==
     \A a \in BOOLEAN : RStrip(RStrip(t, a), a) = RStrip(t, a)
 RStripKeepsValues ==
